@@ -34,6 +34,27 @@ CHECKS = {
             'non-unit time-varying exchange rates and are checked exactly: credit = x*XR_src/XR_tgt, numeraire value of the FX '
             'position zero, numeraire flat for paired flows, refusal without an external sector.',
             'DESIGN.md section 6 C07'),
+    'C08': (['ModelBuild', 'ModelBuild_Trace'], MB,
+            'TLC checks C08_OrderIndependent (final abstract state of every dependency-respecting declaration order equals the '
+            'canonical order\'s) over all orders of the instance; sampled orders are rebuilt with the real classes together with the '
+            'canonical order (same parameters) and compared variable by variable on exact series (observed vs observed).',
+            'DESIGN.md section 6 C08'),
+    'C09': (['Book', 'Rat', 'Book_Trace'],
+            'TLA+ spec Book.tla (SIM / SIMEX1 / PC recursions over exact rationals) model-checked by TLC on a designed parameter '
+            'grid; every grid behaviour rebuilt with the real gl_book builders, the emitted equations solved exactly and compared '
+            'rational by rational by TLC (Book_Trace); off-grid seeded parameters judged by a Python mirror of StepOp bound to TLC',
+            'TLC enumerates the whole grid (book identities as invariants) and emits the closed-form series; the real builders must '
+            'reproduce them exactly (exact oracle) and within 50*tol (real solver); random 2-8 digit parameters, paths and stocks, '
+            'horizons up to 12, and the hand-coded iterative SIM are compared with the same recursion.',
+            'DESIGN.md section 6 C09'),
+    'C14': (['Parser', 'Parser_Trace'],
+            'TLA+ spec Parser.tla (one action per documented line form x trailing-comment class x spacing) model-checked by TLC; '
+            'every TLC-generated block rendered and fed to the real EquationParser, comment-free twins and hostile-description '
+            'model builds compared; traces validated by TLC against Parser_Trace.tla',
+            'All line sequences (<=3 quick, <=4 thorough) of the bounded alphabet are enumerated by TLC with the C14_* invariants; '
+            'each block is parsed by the real parser and judged class by class; with/without comments must give identical parser '
+            'lists and solved series; SIM built with hostile descriptions must give identical results.',
+            'DESIGN.md section 6 C14'),
     'C12': (['Equation', 'Equation_Trace'],
             'TLA+ spec Equation.tla model-checked exhaustively by TLC; every TLC-generated behaviour replayed on the real '
             'Equation/Term/create_equation_from_terms; recorded executions validated by TLC against Equation_Trace.tla',
